@@ -140,6 +140,30 @@ def applyQuery (q : Option Query) (valBytes : Bytes) (s : PState) : PState :=
 /-- the bytes consumed between `b` and its suffix `rest` -/
 def consumed (b rest : Bytes) : Bytes := b.take (b.length - rest.length)
 
+/-- the `switch b[n]` of `consumeAny` -/
+inductive Kind | str | arr | obj | litT | litF | litN | num
+  deriving Repr, DecidableEq
+
+def classify (c : Nat) : Kind :=
+  if c == 0x22 then .str else if c == 0x5B then .arr else if c == 0x7B then .obj
+  else if c == 0x74 then .litT else if c == 0x66 then .litF else if c == 0x6E then .litN else .num
+
+def wTrue : Bytes := [0x74, 0x72, 0x75, 0x65]
+def wFalse : Bytes := [0x66, 0x61, 0x6C, 0x73, 0x65]
+def wNull : Bytes := [0x6E, 0x75, 0x6C, 0x6C]
+
+def Kind.tok : Kind → Nat
+  | .str => tokString | .arr => tokArray | .obj => tokObject | .litT => tokTrue | .litF => tokFalse
+  | .litN => tokNull | .num => tokNumber
+
+/-- the tail of `consumeAny` after the dispatched scanner returned: record the first token and
+    the trivial query, and on success consume trailing white space -/
+def finishAny (noQueries : Bool) (lvl t : Nat) (res : Option Bytes × PState) : Option Bytes × PState :=
+  let s4 := (res.2.setFirst lvl t).setQ noQueries
+  match res.1 with
+  | none => (none, s4)
+  | some r => let cr := consumeSpace r s4; (some cr.1, cr.2)
+
 mutual
 /-- `consumeAny(b, qs, lvl)`.  `none` = the value did not parse.  (Go returns 0 for a
     nested failure and, at the top level, the bytes consumed so far; `Parse` turns the
@@ -154,28 +178,17 @@ def consumeAny (qs : List Query) (cap : Nat) : Nat → Nat → Bytes → PState 
     match consumeSpace b s with
     | ([], s1) => (none, s1)
     | (c :: cs, s1) =>
-      let (rv, t, s2) : Option Bytes × Nat × PState :=
-        if c == 0x22 then
-          let (r, s') := consumeString .norm cs s1.bump; (r, tokString, s')
-        else if c == 0x5B then
+      finishAny qs.isEmpty lvl (classify c).tok
+        (match classify c with
+        | .str => consumeString .norm cs s1.bump
+        | .arr =>
           -- consumeArray: push '[', fail on empty input, else loop
-          let sA := s1.bump.push [0x5B]
-          let (r, s') : Option Bytes × PState := if cs.isEmpty then (none, sA) else arrayLoop qs cap fuel (lvl + 1) cs sA
-          (r, tokArray, s')
-        else if c == 0x7B then
-          let (r, s') := objectLoop qs cap fuel (lvl + 1) cs s1.bump; (r, tokObject, s')
-        else if c == 0x74 then
-          let (r, s') := consumeConst (c :: cs) [0x74, 0x72, 0x75, 0x65] s1; (r, tokTrue, s')
-        else if c == 0x66 then
-          let (r, s') := consumeConst (c :: cs) [0x66, 0x61, 0x6C, 0x73, 0x65] s1; (r, tokFalse, s')
-        else if c == 0x6E then
-          let (r, s') := consumeConst (c :: cs) [0x6E, 0x75, 0x6C, 0x6C] s1; (r, tokNull, s')
-        else
-          let (r, s') := consumeNumber .start (c :: cs) s1; (r, tokNumber, s')
-      let s4 := (s2.setFirst lvl t).setQ qs.isEmpty
-      match rv with
-      | none => (none, s4)
-      | some r => let (r', s5) := consumeSpace r s4; (some r', s5)
+          if cs.isEmpty then (none, s1.bump.push [0x5B]) else arrayLoop qs cap fuel (lvl + 1) cs (s1.bump.push [0x5B])
+        | .obj => objectLoop qs cap fuel (lvl + 1) cs s1.bump
+        | .litT => consumeConst (c :: cs) wTrue s1
+        | .litF => consumeConst (c :: cs) wFalse s1
+        | .litN => consumeConst (c :: cs) wNull s1
+        | .num => consumeNumber .start (c :: cs) s1)
 
 /-- the `for n < len(b)` loop of `consumeArray` -/
 def arrayLoop (qs : List Query) (cap : Nat) : Nat → Nat → Bytes → PState → Option Bytes × PState
